@@ -531,7 +531,7 @@ func runC18(c *explore.Ctx) {
 	}
 	spaces := []sp{{"E", "BIGC", 2}, {"CH", "BIGC", 2}, {"SP", "BIGC", 2}, {"ML", "BIGC", 2}, {"FL", "BIGC", 2}, {"LCS", "BIGC", 1}, {"E", "ROLL", 3}, {"S2", "ROLL", 2}, {"CH", "ROLL", 2}, {"E", "ROLL1", 2}, {"S2", "ROLL1", 3}}
 	if c.Thorough() {
-		spaces = []sp{{"E", "BIGC", 3}, {"CH", "BIGC", 3}, {"CC", "BIGC", 3}, {"SP", "BIGC", 3}, {"ML", "BIGC", 3}, {"HO", "BIGC", 3}, {"FL", "BIGC", 3}, {"LCS", "BIGC", 2}, {"LCM", "BIGC", 2}, {"E", "ROLL", 4}, {"S2", "ROLL", 3}, {"S3", "ROLL", 3}, {"CH", "ROLL", 3}, {"SP", "ROLL", 3}, {"E", "ROLL1", 3}, {"S2", "ROLL1", 4}}
+		spaces = []sp{{"E", "BIGC", 4}, {"CH", "BIGC", 3}, {"CC", "BIGC", 3}, {"SP", "BIGC", 3}, {"ML", "BIGC", 3}, {"HO", "BIGC", 3}, {"FL", "BIGC", 3}, {"FL3", "BIGC", 3}, {"LCS", "BIGC", 3}, {"LCM", "BIGC", 3}, {"E", "ROLL", 5}, {"S2", "ROLL", 4}, {"S3", "ROLL", 4}, {"CH", "ROLL", 3}, {"SP", "ROLL", 3}, {"E", "ROLL1", 4}, {"S2", "ROLL1", 5}, {"RU", "ROLL", 4}}
 	}
 	for _, s := range spaces {
 		if c.Expired() || c.NViolations() > 0 {
